@@ -8,7 +8,8 @@
      Upsert id v p ok | UpsertBatch items ok | Delete id ok | Optimize ok
      Get id -> ok v p          v = index of the returned vector in VecTable, 0 = nil or not a table vector
      Query q k f -> ok hits    hits = << <<id, sd, p>> >>, sd = round(score * NormSq): the dot product the score claims
-     Observe gets queries      a run of Get/Query lines packed into one *)
+     Observe gets queries      a run of Get/Query lines packed into one
+     Inspect ver content idx tmp   white box: the driver's dump of the trees (validated separately, never a verdict) *)
 EXTENDS VectorStore
 
 CONSTANT SkipRejected
@@ -46,12 +47,25 @@ TDelete   == IsEv("Delete") /\ Delete(E.id, E.ok)
 TOptimize == IsEv("Optimize") /\ Optimize(E.ok)
 Strict == ~(FConsolidateTombstones \/ FBufferBlind \/ ConsolidateBatch # 0)
 
+\* White box (never a verdict; keeps the concrete part of the model honest): the driver's dump of the B-trees
+\* behind the store equals content / idx / tmp / ver.
+\*   content = << <<id, 1 live | 2 deleted, payload tag, 0 key without centroid | 1 key addresses the index>> >>
+\*   idx     = << <<id, vector, 0 | 1 tombstone>> >>     tmp = << <<id, vector (0 nil)>> >>
+Rng(s) == {s[i] : i \in 1..Len(s)}
+InspectOK ==
+  /\ E.ver = ver
+  /\ Rng(E.content) = {<<i, IF content[i].st = "live" THEN 1 ELSE 2, content[i].p, IF content[i].ref = AtTmp THEN 0 ELSE 1>> :
+                         i \in {j \in Ids : content[j].st # "none"}}
+  /\ Rng(E.idx) = {<<e.id, e.v, IF e.tomb THEN 1 ELSE 0>> : e \in idx}
+  /\ Rng(E.tmp) = {<<i, tmp[i]>> : i \in DOMAIN tmp}
+
 \* reads: Get, Query, or all reads the driver made after one mutating call packed into one Observe line (the check
 \* script packs them; a rejected Observe line is validated again unpacked to name the call that disagrees)
 ReadOK ==
   CASE E.ev = "Get"   -> GetMatches(E.id, E.ok, E.v, E.p)
     [] E.ev = "Query" -> LET h == Hits(E.hits) IN
                          QueryMatches(E.q, E.k, E.f, E.ok, h) /\ (Strict => HitsOK(E.q, E.k, E.f, h))
+    [] E.ev = "Inspect" -> InspectOK
     [] OTHER          ->
          LET C == Cands IN
          /\ \A i \in 1..Len(E.gets) : LET g == E.gets[i] IN GetMatches(g[1], g[2], g[3], g[4])
@@ -69,12 +83,12 @@ NextReset == CHOOSE j \in (l + 1)..(Len(Trace) + 1) :
 Reject == SkipRejected /\ PrintT(<<"REJ", l>>) /\ l' = NextReset
 
 \* = Get / Query of VectorStore (stuttering steps guarded by GetMatches / QueryMatches), evaluated once per line
-TRead == /\ l <= Len(Trace) /\ E.ev \in {"Get", "Query", "Observe"}
+TRead == /\ l <= Len(Trace) /\ E.ev \in {"Get", "Query", "Observe", "Inspect"}
          /\ IF ~broken /\ (ReadOK = TRUE) THEN l' = l + 1 ELSE Reject
          /\ UNCHANGED vars
 
 Mutating == TraceSetup \/ TUpsert \/ TBatch \/ TDelete \/ TOptimize
-TSkip == /\ l <= Len(Trace) /\ E.ev \notin {"Reset", "Get", "Query", "Observe"}
+TSkip == /\ l <= Len(Trace) /\ E.ev \notin {"Reset", "Get", "Query", "Observe", "Inspect"}
          /\ ~ENABLED Mutating
          /\ Reject
          /\ UNCHANGED vars
